@@ -1002,7 +1002,8 @@ func (s *Entry) collectArgs(ctx context.Context, kvps *Attrs, roughSize int, lvl
 	if s.ctxKeysWanted() {
 		s.fromCtx(ctx, kvps)
 	}
-	if len(s.attrs) > 0 {
+	if len(s.attrs) > 0 || IsAnyBitsSet(LattrsR) {
+		// with LattrsR the ancestors contribute even if this logger has no attributes of its own
 		s.walkParentAttrs(ctx, lvl, s, kvps)
 	}
 	if len(args) > 0 {
